@@ -204,7 +204,12 @@ struct TwinEnv : Family {
 			} else if (v == "vol") {
 				struct In { std::string name; std::vector<uint8_t> data; };
 				std::vector<In> ins;
-				for (auto& l : plan.world) if (l.verb == "file") ins.push_back(In{l.get("name"), prngBytes(l.u("cseed"), static_cast<size_t>(l.u("len")))});
+				for (auto& l : plan.world) if (l.verb == "file") {
+					// every vol scenario of a plan packs all file lines: names must be distinct ignoring case across the whole plan
+					bool clash = false;
+					for (auto& o : ins) if (ref::nameEqualNoCase(o.name, l.get("name"))) clash = true;
+					if (!clash) ins.push_back(In{l.get("name"), prngBytes(l.u("cseed"), static_cast<size_t>(l.u("len")))});
+				}
 				std::vector<std::string> list;
 				std::string dir = "vin" + std::to_string(oi);
 				for (auto& in : ins) { disk::put(dir + "/" + in.name, in.data); list.push_back(spellPath(dir, in.name, e.spell + list.size())); }
@@ -219,7 +224,12 @@ struct TwinEnv : Family {
 			} else if (v == "clm") {
 				std::vector<std::string> list;
 				std::string dir = "cin" + std::to_string(oi);
+				std::vector<std::string> seenNames;
 				for (auto& l : plan.world) if (l.verb == "wav") {
+					bool clash = false;
+					for (auto& o : seenNames) if (ref::nameEqualNoCase(o, l.get("name"))) clash = true;
+					if (clash) continue;
+					seenNames.push_back(l.get("name"));
 					ref::WavSpec w;
 					w.data = prngBytes(l.u("cseed"), static_cast<size_t>(l.u("len")));
 					if (l.u("post", 0)) { ref::WavChunk c; c.tag = "LIST"; c.data = prngBytes(l.u("cseed") ^ 4, 10); w.afterData.push_back(c); }
